@@ -537,3 +537,17 @@ func RandomMonitorReq(s *abs.Schema, rnd *rand.Rand, allSelected bool) map[strin
 	}
 	return req
 }
+
+// DBRows lists the uuid tokens of a table's rows, sorted.
+func (in *Inst) DBRows(table string) []string {
+	rows, err := in.DB.List(in.Ctx.Abs.Name, table)
+	if err != nil {
+		return nil
+	}
+	var out []string
+	for u := range rows {
+		out = append(out, in.Ctx.Tok.ToToken(u))
+	}
+	sort.Strings(out)
+	return out
+}
